@@ -33,6 +33,8 @@ type world struct {
 	dispRuns [2]int
 	evalRet  *bool
 	force    bool
+	// fake-time instants: Eval returned / WhenDisposed observed closed
+	evalAt, disposedAt time.Time
 }
 
 type handlers struct {
@@ -113,11 +115,19 @@ func mk(d def) *sk.Driver {
 				m.Remove1("A", nil)
 			}))
 			if d.eval {
+				// a long eval timeout: what releases the Eval has to be the
+				// disposal, not its own timer
+				m.EvalTimeout = 20 * time.Second
+				go func() {
+					<-m.WhenDisposed()
+					w.disposedAt = time.Now()
+				}()
 				joins = append(joins, sk.Go("E", func() {
 					ectx, c := context.WithCancel(context.Background())
 					defer c()
 					ok := m.Eval("probe", func() { vsched.Yield("eval") }, ectx)
 					w.evalRet = &ok
+					w.evalAt = time.Now()
 				}))
 			}
 			disp := func() {
@@ -252,6 +262,11 @@ func mk(d def) *sk.Driver {
 			}
 			if w.evalRet != nil {
 				r.Observe("eval=%v", *w.evalRet)
+				// an Eval in flight is a waiter like any other: the disposal
+				// releases it, it does not sit out its own timeout
+				if late := w.evalAt.Sub(w.disposedAt); !w.disposedAt.IsZero() && late > 50*time.Millisecond {
+					r.Violate("eval-late", "Eval returned %v (fake time) after WhenDisposed closed", late)
+				}
 			}
 			w.cancel()
 			time.Sleep(time.Minute)
